@@ -21,7 +21,7 @@ SIGMA = [
     ('ifdef', 'SA'), ('ifndef', 'SA'),
     ('elif', ('num', 1)), ('elif', ('num', 0)), ('elif', ('sym', 'SB')),
     ('else',), ('endif',),
-    ('define', 'SA', '1'), ('define', 'SB', '1'),
+    ('define', 'SA', '1'), ('define', 'SB', '1'), ('define', 'SB', '1', '\t'),          # the last one written with tabs
     ('create_memzone', 'zm', 64, 79),
     ('mute',), ('unmute',),
     ('include', 'm.asm'),
